@@ -178,7 +178,11 @@ type SplitCase struct {
 }
 
 var checkSplit = ev.Register("stream-split", func(c *SplitCase) ev.Outcome {
-	for k := 0; k <= len(c.Xs); k++ {
+	step := 1
+	if len(c.Xs) > 100 {
+		step = 7 // long streams: every 7th split point (and the ends), enough to cross every size class
+	}
+	for k := 0; k <= len(c.Xs); k += step {
 		var a, b stats.StreamStats
 		for _, x := range c.Xs[:k] {
 			a.Add(x)
@@ -294,6 +298,11 @@ func TestSplits(t *testing.T) {
 	ev.Rapid(t, "c13-split", 1500, 30000, func(rt *rapid.T) {
 		val := drawValues(rt)
 		n := rapid.IntRange(0, 40).Draw(rt, "n")
+		if rapid.IntRange(0, 7).Draw(rt, "long") == 0 {
+			// long streams: both parts of a split beyond any size threshold (64, 128, 256) at
+			// which an implementation might switch formulas
+			n = rapid.IntRange(130, 560).Draw(rt, "nlong")
+		}
 		c := &SplitCase{Xs: []float64{}}
 		for i := 0; i < n; i++ {
 			c.Xs = append(c.Xs, val("x"))
